@@ -228,6 +228,8 @@ class Facts:
         return True
 
     def assume_variant(self, t, name):
+        if isinstance(t, tuple) and t and t[0] == "agg":
+            return t[2] == name      # a constructed value: nothing to record
         cur = self.variant.get(t)
         if cur is not None:
             return cur == name
